@@ -163,7 +163,11 @@ fn c12(_ctx: &Ctx, r: &mut Report) {
 fn c03(_ctx: &Ctx, r: &mut Report) {
     r.domain = "fn inputs: generic parameter lists up to length 3 over {deps D (bounded or not), T: Clone, U, 'a, 'b, const N: usize} x where clauses {none, T: Copy, D: A, U: 'a} x parameter / return types mentioning them x deps {&D, D, &'a D, &impl A} x {sync, async}".into();
     r.bound = "exhaustive over the listed alphabets".into();
-    let generic_sets: [(&str, &[&str], &[&str]); 9] = [
+    let generic_sets: [(&str, &[&str], &[&str]); 13] = [
+        ("<const N: usize, D>", &["const N : usize"], &[]),
+        ("<'a, const N: usize, D: A>", &["const N : usize"], &["'a"]),
+        ("<const N: usize, T, D>", &["const N : usize", "T"], &[]),
+        ("<T, const N: usize, D, U>", &["T", "const N : usize", "U"], &[]),
         ("<D>", &[], &[]),
         ("<D, T: Clone>", &["T : Clone"], &[]),
         ("<T: Clone, D>", &["T : Clone"], &[]),
